@@ -858,6 +858,18 @@ fn cmd_c10(n: usize) -> (u64, Vec<String>) {
             }
         }
     }
+    // targeted documents in which every test passes: `update` has nothing to rewrite, the document must come back byte for byte
+    for (class, doc) in [("no-final-newline", "# T\n\n```scrut\n$ echo a\na\n```\n\nlast line"),
+        ("exit-code-line-of-passing-test", "```scrut\n$ echo a\na\n[0]\n```\n"),
+        ("inline-config-lost", "```scrut {timeout: 5s} important\n$ echo a\na\n```\n")] {
+        cases += 1;
+        match upd(doc) {
+            Ok(Some((_, _, u))) if u == doc => {}
+            Ok(Some((_, _, u))) => bad.push(format!("{{\"class\":{},\"why\":{},\"doc\":{}}}", jstr(class), jstr(&format!("C10: every test passes, yet update rewrites the document: {u:?}")), jstr(doc))),
+            Ok(None) => {}
+            Err(w) => bad.push(format!("{{\"class\":{},\"why\":{},\"doc\":{}}}", jstr(class), jstr(&format!("C10: {w}")), jstr(doc))),
+        }
+    }
     (cases, bad)
 }
 
@@ -1470,6 +1482,24 @@ fn cmd_leaves(which: &str) -> (u64, Vec<String>) {
             }
         }
     }
+    // Cram: lines that are not "following the shell expression" do not belong to the next command
+    if which == "cram" {
+        for (class, doc, cmd) in [("stray-exit-code", "Disabled for now\n$ false\n  [1]\n\nNext test\n  $ true\n", "true"), ("stray-exit-code", "  [1]\n  $ true\n", "true"),
+            ("stray-line-before-command", "  stray\n  $ echo hi\n  hi\n", "echo hi"), ("stray-line-before-command", "Title\n  \n  $ echo hi\n  hi\n", "echo hi")] {
+            n += 1;
+            let maker = std::sync::Arc::new(ExpectationMaker::new(RuleRegistry::default()));
+            match std::panic::catch_unwind(std::panic::AssertUnwindSafe(|| CramParser::new(maker, 2).parse(doc))) {
+                Err(_) => report(class, format!("cram: parse panics"), doc, &mut bad),
+                Ok(Err(_)) => {}
+                Ok(Ok((_, tcs))) => {
+                    let t = tcs.iter().find(|t| t.shell_expression == cmd);
+                    let exps: Vec<String> = t.map(|t| t.expectations.iter().map(|e| e.original_string()).collect()).unwrap_or_default();
+                    let ok = t.is_some() && t.unwrap().exit_code.is_none() && exps.iter().all(|e| e == "hi");
+                    if !ok { report(class, format!("cram: the command `{cmd}` is read with exit code {:?} and expectations {exps:?}: a line written BEFORE the command (not after it) was given to it; expected an error or exactly the lines written after the command", t.and_then(|t| t.exit_code)), doc, &mut bad); }
+                }
+            }
+        }
+    }
     for t in titles {
         if which != "markdown" { continue; }
         n += 1;
@@ -1607,6 +1637,61 @@ fn cmd_c13_deep() -> (u64, Vec<String>) {
     (1, bad)
 }
 
+
+// ------------------------------------------------------------------------------------------------ regex kind (C04)
+/// BOUNDED: "a `regex` expectation [matches] iff the whole line (final newline ignored) -- not merely a prefix or suffix -- matches the
+/// regular expression": for a family of VALID regular expressions (the regex crate compiles them as written) the rule scrut builds is
+/// compared with the regex crate's own answer for `^(?:e)$` on a pool of lines. Classed by the construct the expression uses.
+fn cmd_regexkind() -> (u64, Vec<String>) {
+    use scrut::rules::regex::RegexRule;
+    use scrut::rules::rule::RuleMaker;
+    let family: Vec<(&str, Vec<&str>)> = vec![
+        ("plain", vec!["foo", "fo+", "a|b", "a|bc", "^a", "a$", "(a|b)c", "a.c", "a.*", "\\d+", "\\w+ \\w+", "x?y", "(?i)abc", "caf.", "caf\u{e9}"]),
+        ("quantifier", vec!["a{2}", "a{1,2}", "[0-9]{1,}", "x{2,}", "\\d{3,}", "(ab){2}"]),
+        ("class", vec!["[abc]+", "[^a]b", "[a-c]x", "\\[[0-9]+] ok", "[ab]x]", "[a-]]", "[[:alpha:]]+", "[a-z&&[^b]]+", "[]a]", "[\\]a]"]),
+        ("braced-escape", vec!["\\p{Greek}+", "\\x{e9}", "\\x41", "\\pL+", "\\b{start}foo"]),
+        ("word-boundary", vec!["\\<foo\\>", "\\bfoo\\b"]),
+        ("group-balance", vec!["foo)|(bar", "(foo|bar)", "(foo)|(bar)"]),
+        ("literal-text", vec!["a<<<<3>>>>", "hello\\{world\\}", "a\\.b", "\\(x\\)"]),
+    ];
+    let pool = ["", "foo", "fooXYZ", "XYZbar", "bar", "a", "b", "bc", "ab", "ac", "abc", "aa", "aaa", "x", "xx", "xy", "y", "123", "1{1,}", "[123] ok", "[+ ok", "ax]", "bx]", "a]", "-]", "[:]", "ABC", "caf\u{e9}", "\u{e9}", "A",
+        "\u{3b1}\u{3b2}\u{3b3}", "<foo>", " foo ", "a<<<<3>>>>", "hello{world}", "a.b", "axb", "(x)", "abab", "1234", "ab cd", "]a", "fo", "foooo", "a\nb"];
+    let mut n = 0u64;
+    let mut bad: Vec<String> = vec![];
+    let mut seen: std::collections::BTreeSet<String> = Default::default();
+    std::panic::set_hook(Box::new(|_| {}));
+    for (class, exprs) in &family {
+        for e in exprs {
+            // the oracle: the expression as written, anchored as a whole
+            if regex::bytes::Regex::new(e).is_err() { 
+                // not a regular expression on its own (e.g. unbalanced): scrut must not accept it by wrapping it
+                n += 1;
+                if let Ok(rule) = RegexRule::make(e) {
+                    let witness = pool.iter().find(|l| rule.matches(format!("{l}\n").as_bytes()));
+                    if seen.insert(class.to_string()) { bad.push(format!("{{\"class\":{},\"why\":{},\"case\":{}}}", jstr(class), jstr(&format!("C04 regex: `{e}` is not a regular expression, yet it is accepted{}", witness.map(|w| format!(" and matches the line {w:?}")).unwrap_or_default())), jstr(e))); }
+                }
+                continue;
+            }
+            let oracle = regex::bytes::Regex::new(&format!("^(?:{e})$")).expect("anchored form compiles");
+            let rule = match std::panic::catch_unwind(|| RegexRule::make(e)) {
+                Ok(Ok(r)) => r,
+                Ok(Err(err)) => { n += 1; if seen.insert(class.to_string()) { bad.push(format!("{{\"class\":{},\"why\":{},\"case\":{}}}", jstr(class), jstr(&format!("C04 regex: the valid regular expression `{e}` is rejected: {err}")), jstr(e))); } continue; }
+                Err(_) => { n += 1; bad.push(format!("{{\"class\":\"crash\",\"why\":{},\"case\":{}}}", jstr(&format!("C04 regex: RegexRule::make panics on `{e}`")), jstr(e))); continue; }
+            };
+            for l in pool {
+                if l.contains('\n') && !e.contains("(?s)") { /* lines never contain an inner line feed */ continue; }
+                n += 1;
+                let want = oracle.is_match(l.as_bytes());
+                let got = rule.matches(format!("{l}\n").as_bytes());
+                if got != want && seen.insert(class.to_string()) {
+                    bad.push(format!("{{\"class\":{},\"why\":{},\"case\":{}}}", jstr(class), jstr(&format!("C04 regex: `{e} (regex)` {} the line {l:?}; the regular expression {} it as a whole", if got { "matches" } else { "does not match" }, if want { "matches" } else { "does not match" })), jstr(&format!("{e} / {l}"))));
+                }
+            }
+        }
+    }
+    (n, bad)
+}
+
 fn cmd_cram_probe() -> (u64, Vec<String>) {
     use scrut::parsers::cram::CramParser;
     use scrut::parsers::parser::Parser;
@@ -1665,6 +1750,7 @@ fn main() {
         "c13-probe" => cmd_c13_probe(),
         "c13-deep" => cmd_c13_deep(),
         "c15" => cmd_c15(args.get(2).and_then(|s| s.parse().ok()).unwrap_or(2)),
+        "regexkind" => cmd_regexkind(),
         "c14" => cmd_c14(match (args.get(2).and_then(|s| s.parse().ok()), args.get(3).and_then(|s| s.parse().ok())) { (Some(r), Some(l)) => Some((r, l)), _ => None }),
         "leaves" => cmd_leaves(args.get(2).map(|s| s.as_str()).unwrap_or("markdown")),
         "glob" => cmd_glob(args.get(2).and_then(|s| s.parse().ok()).unwrap_or(3)),
